@@ -25,6 +25,9 @@ type HConfig struct {
 	Single    int  `json:"single"`     // 0: versions may mix; 1: V1 only; 2: V2 only
 	RelTime   bool `json:"rel_time"`   // message times in the trace are relative to the start of the run (C16 Compact(age))
 	SmallKeys bool `json:"small_keys"` // compaction profile: at most 5 keys
+	// CheckEvery > 1: the full observation runs only after every n-th step, so lazily loaded state
+	// (segments not yet indexed after a reopen, GC'd readers) is still lazy when the next operation runs
+	CheckEvery int `json:"check_every"`
 }
 
 type OpenOpts struct {
